@@ -90,6 +90,9 @@ def guarded(fn):
                 "site": "recursion", "raised_in": None, "msg": str(e)[:100],
                 "lineno": "<absent>", "url": "<absent>", "colno": "<absent>"}
     except Exception as e:
+        from zcsim import world as _world
+        if _world.CURRENT is not None:
+            _world.CURRENT.note_raise()
         return failure(e)
 
 
